@@ -221,7 +221,7 @@ package fs
 //@   ensures grown(e, fixedLen > 0 ? fixedLen : len(s))
 //@   ensures forall x {raw(deref(e), x)} :: 0 <= newat(e, x) && newat(e, x) < len(s) ==> raw(deref(e), x) == s[newat(e, x)]
 //@   ensures forall x {raw(deref(e), x)} :: len(s) <= newat(e, x) && x < base(deref(e)) + len(deref(e)) ==> raw(deref(e), x) == padding
-//@   loop 1 invariant len(deref(e)) == n + fixedLen && start == n + len(s) && start <= i && deref(e) == pre(deref(e)) && (forall x {raw(deref(e), x)} :: base(deref(e)) <= x && x < base(deref(e)) + start ==> raw(deref(e), x) == pre(raw(deref(e), x))) && (forall x {raw(deref(e), x)} :: base(deref(e)) + start <= x && x < base(deref(e)) + i ==> raw(deref(e), x) == padding)
+// (the padding loop is a fill loop: its summary is derived automatically, in whichever form it is written)
 
 //@ func iso9660encoder.appendStrA
 //@   tags C04,C08
